@@ -110,7 +110,8 @@ def gen_items(rng, tricky):
     rank = {nm: i for i, nm in enumerate(order)}
     kinds = {}
     for nm in names:
-        kinds[nm] = rng.choice(['struct', 'struct', 'gstruct', 'uenum', 'aenum', 'alias', 'const'] if tricky else ['struct', 'struct', 'gstruct', 'uenum', 'alias', 'const'])
+        # algebraic enums are ordinary items since the repair of get_enum_dependencies: plain sets contain them too
+        kinds[nm] = rng.choice(['struct', 'struct', 'gstruct', 'uenum', 'aenum', 'alias', 'const'] if tricky else ['struct', 'struct', 'gstruct', 'uenum', 'aenum', 'aenum', 'alias', 'const'])
     gstructs = [nm for nm in names if kinds[nm] == 'gstruct']
     renamed = {nm: (nm + 'R' if tricky and rng.random() < 0.15 else nm) for nm in names}
     cyclic = tricky and rng.random() < 0.2
@@ -168,6 +169,47 @@ def gen_items(rng, tricky):
     return items
 
 
+def _fld(i, t):
+    return {'id': ir.mk_id(f'f{i}'), 'ty': t, 'comments': [], 'has_default': False, 'decorators': []}
+
+
+def _enum(nm, variants, gens=()):
+    """algebraic enum; variants: ('tuple', ty) | ('struct', [ty, ..]) | ('unit',)"""
+    vs = []
+    for i, v in enumerate(variants):
+        if v[0] == 'tuple':
+            vs.append({'k': 'tuple', 'id': ir.mk_id(f'V{i}'), 'comments': [], 'ty': v[1]})
+        elif v[0] == 'struct':
+            vs.append({'k': 'struct', 'id': ir.mk_id(f'V{i}'), 'comments': [], 'fields': [_fld(j, t) for j, t in enumerate(v[1])]})
+        else:
+            vs.append({'k': 'unit', 'id': ir.mk_id(f'V{i}'), 'comments': []})
+    return {'kind': 'enum', 'algebraic': True, 'tag': 't', 'content': 'c', 'id': ir.mk_id(nm), 'generics': list(gens), 'comments': [],
+            'variants': vs, 'decorators': [], 'is_recursive': False, 'is_redacted': False}
+
+
+def _struct(nm, tys, gens=()):
+    return {'kind': 'struct', 'id': ir.mk_id(nm), 'generics': list(gens), 'fields': [_fld(i, t) for i, t in enumerate(tys)],
+            'comments': [], 'decorators': [], 'is_redacted': False}
+
+
+def pinned_sets():
+    """Former witnesses of the findings repaired in get_enum_dependencies (KNOWN_FINDINGS.jsonl: C11-variant-fields,
+    C11-enum-self-edge, status fixed) and of Props.C11_*_fixed. They are outside every class now and must PASS: a
+    definition emitted before one it refers to is a plain violation (regression)."""
+    B, C = ir.simple('B'), ir.simple('C')
+    return [
+        ('C11-variant-fields', [_enum('E', [('struct', [B])]), _struct('B', [])]),                      # enum E { V { f: B } }  struct B {}
+        ('C11-enum-self-edge', [_enum('E', [('tuple', B)]), _struct('B', [])]),                          # enum E { V(B) }  struct B {}
+        ('C11-enum-self-edge', [_enum('A', [('tuple', B)]), _enum('B', [('tuple', C), ('unit',)]), _enum('C', [('unit',), ('struct', [ir.special('U8')])])]),  # enum A { V(B) }, enum B { .. }
+        ('C11-variant-fields', [_enum('A', [('tuple', B)]), _enum('B', [('struct', [ir.special('Vec', C)]), ('unit',)]), _struct('C', [])]),
+        ('C11-variant-fields', [_enum('E', [('unit',), ('struct', [ir.special('U8'), ir.special('Option', C), ir.special('HashMap', ir.special('String'), B)])]),
+                                _struct('B', [C]), _struct('C', [])]),
+        # struct first, enums after (the order generate_types feeds them), references against the feed order
+        ('C11-enum-self-edge', [_struct('S', [ir.simple('E')]), _enum('E', [('tuple', ir.special('Vec', ir.simple('F')))]), _enum('F', [('struct', [ir.simple('G')])]),
+                                _enum('G', [('unit',)])]),
+    ]
+
+
 SPECIAL_IDS = [('Vec', lambda: ir.special('Vec', ir.special('U8'))), ('Option', lambda: ir.special('Option', ir.special('U8'))),
                ('HashMap', lambda: ir.special('HashMap', ir.special('String'), ir.special('U8'))),
                ('String', lambda: ir.special('String')), ('u8', lambda: ir.special('U8')), ('bool', lambda: ir.special('Bool'))]
@@ -184,7 +226,8 @@ def gen_lookalike(rng):
     co = lambda nm, t: {'kind': 'const', 'id': ir.mk_id(nm), 'ty': t, 'value': '7'}
     user = lambda nm, t: rng.choice([st(nm, [t]), st(nm, [ir.special('Vec', t)]), al(nm, t), al(nm, ir.special('Option', t))])
     a, b, g = rng.sample(['A', 'B', 'G', 'M', 'Q', 'Zed'], 3)
-    shape = rng.choice(['param', 'param', 'special', 'special', 'own', 'alias', 'alias_idle', 'dup', 'harmless', 'reuse', 'twice'])
+    shape = rng.choice(['param', 'param', 'special', 'special', 'own', 'alias', 'alias_idle', 'dup', 'harmless', 'reuse', 'twice',
+                        'eparam', 'especial', 'eown', 'echain'])
     if shape == 'param':        # struct a<T> { f: T, g: b }, item T uses a
         items = [st(a, [ir.simple('T'), ir.simple(b)], ['T']), st(b, []), user('T', ir.generic(a, [ir.special('U8')]))]
     elif shape == 'special':    # a { f: g<Vec<u8>> }, g<T>, an item named Vec that uses a
@@ -202,6 +245,20 @@ def gen_lookalike(rng):
     elif shape == 'twice':      # one typeshared generic used twice with different arguments: outside every class
         items = [st(a, [ir.generic(g, [ir.simple(b)]), ir.special('Vec', ir.generic(g, [ir.simple('Zz')]))]), st(g, [ir.simple('T')], ['T']),
                  st(b, []), user('Zz', ir.special('U8'))]
+    elif shape == 'eparam':     # enum a<T> { V(T) | V { f: T }, W(b) }, item T uses a: the enum's parameter is looked up like a struct's
+        pv = rng.choice([('tuple', ir.simple('T')), ('struct', [ir.simple('T')])])
+        items = [_enum(a, [pv, rng.choice([('tuple', ir.simple(b)), ('struct', [ir.simple(b)])]), ('unit',)], ['T']), st(b, []),
+                 user('T', ir.generic(a, [ir.special('U8')]))]
+    elif shape == 'especial':   # enum a { V(g<Vec<u8>>), W { f: b } }, g<T>, an item named Vec that uses a
+        nm, mk = rng.choice(SPECIAL_IDS)
+        items = [_enum(a, [rng.choice([('tuple', ir.generic(g, [mk()])), ('struct', [ir.generic(g, [mk()])])]), ('struct', [ir.simple(b)])]), st(b, []),
+                 st(g, [ir.simple('T')], ['T']), user(nm, ir.simple(a))]
+    elif shape == 'eown':       # enum a<T> { V(a<b>) }: the arguments of a Generic named like the collecting enum
+        items = [_enum(a, [rng.choice([('tuple', ir.generic(a, [ir.simple(b)])), ('struct', [ir.generic(a, [ir.simple(b)])])]), ('tuple', ir.simple('T'))], ['T']), st(b, [])]
+    elif shape == 'echain':     # enums referring to enums through both variant shapes and containers: outside every class
+        mkv = lambda t: rng.choice([('tuple', t), ('struct', [t]), ('struct', [ir.special('U8'), t]), ('tuple', ir.special('Vec', t)),
+                                    ('struct', [ir.special('Option', t)]), ('tuple', ir.special('HashMap', ir.special('String'), t))])
+        items = [_enum(a, [('unit',), mkv(ir.simple(b))]), _enum(b, [mkv(ir.simple(g)), ('unit',)]), rng.choice([st(g, []), _enum(g, [('unit',)])])]
     elif shape == 'dup':        # a const named like the struct a field refers to
         items = [st(a, [ir.simple(b)]), st(b, []), co(b, ir.special('U32'))]
     else:                       # item named T / Vec present but nothing looks it up: outside every class
@@ -228,7 +285,8 @@ def run(chk):
                 'arguments, by original or renamed name, DAGs and cycles; in a share of the sets an item is named like a generic parameter (T) or like '
                 'the id() of a special type (Vec, Option, HashMap, String, u8), a generic struct mentions itself with arguments, an alias has a '
                 'generic parameter (named like an item or not), a const shares the name of another item; plus directed sets built around each of these shapes '
-                '(and harmless look-alikes that are outside every class) in a random acyclic context. Verdict on the REAL order by the extracted good_C11; '
+                '(for structs and for algebraic enums; and harmless look-alikes that are outside every class) in a random acyclic context; plus the former '
+                'witnesses of the repaired classes C11-variant-fields / C11-enum-self-edge, which must pass. Verdict on the REAL order by the extracted good_C11; '
                 'on sets outside the classes the extracted model must itself satisfy good_C11 (theorem C11_topsort_good). non-trivial = distinct inputs with at least one edge / non-identity')
     chk.assumptions = ['the hooks core::verif_hooks::{toposort_impl,sort_by_indices,topsort} are thin wrappers (MANIFEST.hooks)']
     chk.prepare()
@@ -298,7 +356,9 @@ def run(chk):
     chk.count('permutations', len(perms))
 
     # ---- (c) topsort on item sets
-    sets = [gen_items(rng, tricky=(k % 3 != 0)) for k in range(3000 if chk.tier == 'quick' else 40000)]
+    pins = pinned_sets()
+    sets = [items for _, items in pins]
+    sets += [gen_items(rng, tricky=(k % 3 != 0)) for k in range(3000 if chk.tier == 'quick' else 40000)]
     sets += [gen_lookalike(rng) for _ in range(600 if chk.tier == 'quick' else 8000)]
     sxs = [Lst(items, ir.sx_item) for items in sets]
     m = vf.model([f'(c11_topsort {sx})' for sx in sxs])
@@ -331,6 +391,11 @@ def run(chk):
         if any(ir.item_types(it) for it in items) and known is None:
             chk.nontrivial.add(('s', sxs[k]))
         chk.count('sets_known_' + (known or 'none'))
+        if k < len(pins):
+            chk.count('pinned_former_witnesses')
+            if known is not None or not acyc:
+                chk.violation(f'pinned-{k}', payload, f'former witness of the repaired class {pins[k][0]} is classified {known!r} / acyclic={acyc} by the extracted spec: '
+                              'Spec/C11Spec.v no longer matches the repaired get_enum_dependencies', no_input=True)
         chk.count('sets_acyclic' if acyc else 'sets_cyclic')
         if oi[0] != 'ok':
             chk.violation(f'topsort-{k}', payload, f'topsort {oi[0]}s on an item set')
@@ -346,7 +411,8 @@ def run(chk):
         if not perm:
             chk.violation(f'topsort-{k}', payload, 'the emitted items are not a permutation of the parsed items')
         elif not good and known is None:
-            chk.violation(f'topsort-{k}', payload, 'acyclic references, yet a definition is emitted before one it refers to')
+            chk.violation(f'topsort-{k}', payload, 'acyclic references, yet a definition is emitted before one it refers to'
+                          + (f' (regression of the repaired finding {pins[k][0]})' if k < len(pins) else ''))
         elif not good and not equal:
             chk.violation(f'topsort-{k}', payload, f'order violates the property differently from what finding class {known} predicts')
         elif not good:
